@@ -74,6 +74,11 @@ pub proof fn lemma_merge_with_empty_body(a: Map<String, Vec<String>>, b: Map<Str
     }
 }
 impl CanonicalRequest {
+}
+// (own module: one solver context per module keeps this function's queries small and independent of the rest of the unit)
+pub mod frp_m {
+use super::*;
+impl CanonicalRequest {
 //@ fn canonical.rs impl CanonicalRequest :: from_request_parts
 //@ hideutf8
 //@ props C08 C01 C09 C10 C11 C12 C13 C15 C17
@@ -193,6 +198,9 @@ impl CanonicalRequest {
         }
     }
 //@ end
+}
+} // mod frp_m
+impl CanonicalRequest {
 }
 
 //@ item signature.rs const ALLOWED_MISMATCH_MINUTES
